@@ -505,7 +505,43 @@ pub fn execute(project: &ProjectRef, plan: &Plan, counters: &mut Counters) -> Ru
         .unwrap_or_else(|e| harness_error(&format!("spawn c12-exec: {e}")));
     let req = json!({"name": project.name, "root": project.root, "starknet": project.starknet, "plan": plan});
     child.stdin.take().unwrap().write_all(req.to_string().as_bytes()).unwrap();
-    let out = child.wait_with_output().unwrap_or_else(|e| harness_error(&format!("c12-exec: {e}")));
+    // Watchdog: a run that does not come back (a livelock under some schedule) is an observable
+    // of its own, not a hang of the harness.
+    let t0 = Instant::now();
+    let limit = std::time::Duration::from_secs(simcore::env_usize("VERIF_RUN_TIMEOUT_S", 900) as u64);
+    let mut timed_out = false;
+    let mut stdout = child.stdout.take().unwrap();
+    let mut stderr = child.stderr.take().unwrap();
+    let out_reader = std::thread::spawn(move || {
+        let mut s = Vec::new();
+        let _ = std::io::Read::read_to_end(&mut stdout, &mut s);
+        s
+    });
+    let err_reader = std::thread::spawn(move || {
+        let mut s = Vec::new();
+        let _ = std::io::Read::read_to_end(&mut stderr, &mut s);
+        s
+    });
+    let status = loop {
+        match child.try_wait() {
+            Ok(Some(st)) => break st,
+            Ok(None) => {
+                if t0.elapsed() > limit {
+                    let _ = child.kill();
+                    timed_out = true;
+                    break child.wait().unwrap_or_else(|e| harness_error(&format!("c12-exec: {e}")));
+                }
+                std::thread::sleep(std::time::Duration::from_millis(20));
+            }
+            Err(e) => harness_error(&format!("c12-exec: {e}")),
+        }
+    };
+    let out = std::process::Output { status, stdout: out_reader.join().unwrap_or_default(), stderr: err_reader.join().unwrap_or_default() };
+    if timed_out {
+        let mut obs = Observables::new();
+        obs.insert("PANIC".into(), format!("no result within {}s (run killed)", limit.as_secs()));
+        return RunOut { obs, raw_sig: 0, attr_sig: 0, tasks_with_queries: 0, tasks_run: 0, queries_executed: 0, sched_steps: 0 };
+    }
     let text = String::from_utf8_lossy(&out.stdout);
     let line = text.lines().rev().find(|l| l.starts_with("{\"c12-exec\"")).unwrap_or_else(|| {
         let p = simcore::verif_root().join(format!("sim/scratch/c12-exec-failed-{}.json", std::process::id()));
